@@ -584,5 +584,8 @@ func runC04(e *Env) error {
 			e.Res.Violate("no-failing-input-found", "corr-sort-mismatch", fmt.Sprintf("%s: implementation order %s vs model %s for %s", c.Dialect, trunc(norm(order), 400), trunc(norm(raw.Order), 400), hxJSON(c)), "correspondence Atlas.Sort.planOrder", replay)
 		}
 	})
+	if e.Replay == "" {
+		c04Repoint(e)
+	}
 	return nil
 }
